@@ -459,7 +459,7 @@ def check_pipeline(env: Env, report, machine, state, user, left, right, label, f
     status, out = ci.check_pipeline_section(machine, user, lmeta, rmeta)
     impl = {"status": status, "out": ci.to_wire(out) if status == "ok" else out}
     model = env.lean.call(
-        "C05.pipeline", registry=env.registry, user=case["user"], state=state or {},
+        "C05.pipeline", registry=env.registry, flags=env.data["flags"], user=case["user"], state=state or {},
         left=ci.img_info_wire(left["bands"], left["disp_source"]),
         right=ci.img_info_wire(right["bands"], right["disp_source"]),
     )
@@ -657,7 +657,7 @@ def check_conf_case(env: Env, report, user_sym, label="check_conf", state=None, 
     machine = machine or ci.PandoraMachine()
     status, out = ci.check_conf(machine, user)
     impl = {"status": status, "out": ci.to_wire(out) if status == "ok" else out}
-    model = env.lean.call("C05.check_conf", registry=env.registry, input_schemas=env.data["input"],
+    model = env.lean.call("C05.check_conf", registry=env.registry, flags=env.data["flags"], input_schemas=env.data["input"],
                           files=files.wire(), user=ci.to_wire(user), state=state or {})
     mres = model["res"]
     if status == "ok":
